@@ -38,7 +38,7 @@ def generate(r, tier):
     sc = {"prog": prog, "parser": kgen.pick_parser(r, prog, 0.05), "hash_salt": r.getrandbits(32),
           "policy": r.choice([None, "sdkconfig", "kconfig"])}
     sc["hand"] = [kgen.handwritten(r, prog) for _ in range(r.randint(0, 1))]
-    sc["ops"] = ops.gen_history(r, prog, r.randint(1, 25), weights={"read": 4, "edge": 10, "save": 3, "save_min": 5, "load": 4, "restart": 3, "member_bias": 0.35},
+    sc["ops"] = ops.gen_history(r, prog, r.randint(1, 25), weights={"read": 4, "edge": 10, "save": 3, "save_min": 5, "clobber": 3, "load": 4, "restart": 3, "member_bias": 0.35},
                                 hand_n=len(sc["hand"]), sane=0.85)
     return sc
 
